@@ -224,6 +224,10 @@ Definition get_parent (s : store) (gid id rel parent : N) : res (option N) :=
 Record vocab := mkVocab { v_has : N; v_connects : N; v_NetworkNode : N; v_Component : N; v_CompositeNode : N;
                           v_NetworkService : N; v_ConnectionPoint : N; v_Link : N }.
 
+(* the interning used by harness/c06.py and translator/gen_query6.py: relations has=1 connects=2; classes
+   NetworkNode=1 Component=2 CompositeNode=3 NetworkService=4 ConnectionPoint=5 Link=6 *)
+Definition std_vocab : vocab := mkVocab 1 2 1 2 3 4 5 6.
+
 (* find_peer_connection_points: None when there is no candidate *)
 Definition find_peer_connection_points (V : vocab) (s : store) (gid id : N) : res (option (list N)) :=
   bind (first_and_second_neighbor s gid id (v_connects V) (v_Link V) (v_connects V) (v_ConnectionPoint V))
@@ -283,3 +287,12 @@ Definition graph_for (s : store) (gid : N) (rel : option N) : res graph :=
 (* a qualifying path of get_nodes_on_path_with_hops *)
 Definition hop_path (G : graph) (a z : N) (hops : list N) (cutoff : Z) (q : list N) : Prop :=
   is_path G q a z = true /\ NoDup q /\ qualifies G hops q = true /\ (Z.of_nat (length q) <= cutoff + 1)%Z.
+
+(* ---------- the store used by the non-vacuity Examples of Properties/C06.v ---------- *)
+(* two graphs in one store; graph 1: a(1) -has- b(2), b -connects- c(3), b -has- d(4), c -connects- e(5),
+   d -connects- e;  graph 2 reuses the NodeIDs 1 and 2.  classes: 1 NetworkNode, 4 NetworkService,
+   5 ConnectionPoint; relations: 1 has, 2 connects *)
+Definition ex_store : store :=
+  mkStore [mkNode 10 1 1 1; mkNode 11 2 1 5; mkNode 12 1 2 4; mkNode 13 2 2 5; mkNode 14 1 3 5; mkNode 15 1 4 5;
+           mkNode 16 1 5 5]
+          [(10, 12, 1); (11, 13, 2); (12, 14, 2); (12, 15, 1); (14, 16, 2); (15, 16, 2)].
